@@ -213,11 +213,15 @@ func (c *Conn) readLoop(ctx context.Context) (header, error) {
 		}
 
 		if !c.client && !h.masked {
-			return header{}, errors.New("received unmasked frame from client")
+			err := errors.New("received unmasked frame from client")
+			c.writeError(StatusProtocolError, err)
+			return header{}, err
 		}
 
 		if c.client && h.masked {
-			return header{}, errors.New("received masked frame from server")
+			err := errors.New("received masked frame from server")
+			c.writeError(StatusProtocolError, err)
+			return header{}, err
 		}
 
 		switch h.opcode {
@@ -255,6 +259,8 @@ func (c *Conn) readFrameHeader(ctx context.Context) (header, error) {
 		case <-ctx.Done():
 			return header{}, ctx.Err()
 		default:
+			// Either the transport failed or the header is invalid: the stream cannot be resumed.
+			c.closeTransport()
 			return header{}, err
 		}
 	}
